@@ -267,8 +267,6 @@ void CircuitFlowReverser::do_instruction(const CircuitInstruction &inst) {
         case GateType::PAULI_CHANNEL_1:
         case GateType::PAULI_CHANNEL_2:
         case GateType::E:
-        case GateType::HERALDED_ERASE:
-        case GateType::HERALDED_PAULI_CHANNEL_1:
             do_simple_instruction(inst);
             return;
         case GateType::XCZ:
@@ -295,6 +293,8 @@ void CircuitFlowReverser::do_instruction(const CircuitInstruction &inst) {
             flush_detectors_and_observables();
             break;
 
+        case GateType::HERALDED_ERASE:
+        case GateType::HERALDED_PAULI_CHANNEL_1:
         case GateType::MPAD:
         case GateType::MPP:
         case GateType::MXX:
